@@ -11,6 +11,7 @@ import (
 	"encoding/hex"
 	"encoding/json"
 	"fmt"
+	"regexp"
 	"runtime"
 	"sort"
 	"strings"
@@ -69,6 +70,11 @@ type State struct {
 	Parent *State
 	Via    Action
 	key    string
+	// KeyNoLog drops the board content from the canonical key (inherited by successors). Sound
+	// only where nothing re-reads old log entries and every node polls eagerly: then the future
+	// of a state is determined by the node stores, the machine histories and the pending
+	// operations (DKG phase; checked by the C08 exploration which never merges).
+	KeyNoLog bool
 }
 
 // Trace returns the action list from the initial state.
@@ -222,7 +228,7 @@ func (k *Worker) Pending(s *State, i int) []*types.Operation {
 }
 
 func (k *Worker) child(s *State, a Action) *State {
-	c := &State{Log: s.Log, Snap: append([]string(nil), s.Snap...), Mach: s.Mach, Extra: s.Extra, Depth: s.Depth + 1, Parent: s, Via: a}
+	c := &State{Log: s.Log, Snap: append([]string(nil), s.Snap...), Mach: s.Mach, Extra: s.Extra, Depth: s.Depth + 1, Parent: s, Via: a, KeyNoLog: s.KeyNoLog}
 	return c
 }
 
@@ -304,6 +310,14 @@ func (k *Worker) ensureMachine(i int, seq []string) error {
 	na.Ops = append([]string(nil), seq...)
 	k.W.Airs[i] = na
 	return nil
+}
+
+// MachineAt returns the live machine i brought to the logical history it has in state s.
+func (k *Worker) MachineAt(s *State, i int) (*world.Air, error) {
+	if err := k.ensureMachine(i, s.Mach[i]); err != nil {
+		return nil, err
+	}
+	return k.W.Airs[i], nil
 }
 
 // Answer returns the airgapped machine's result for op in state s (cached: the machine is a
@@ -439,6 +453,9 @@ func (s *State) Key() string {
 	}
 	h := sha256.New()
 	for _, m := range s.Log {
+		if s.KeyNoLog {
+			break
+		}
 		fmt.Fprintf(h, "%s|%s|%s|%s|", m.DkgRoundID, m.Event, m.SenderAddr, m.RecipientAddr)
 		h.Write(m.Data)
 		h.Write([]byte{1})
@@ -446,7 +463,11 @@ func (s *State) Key() string {
 		h.Write([]byte{2})
 	}
 	for _, sn := range s.Snap {
-		h.Write([]byte(sn))
+		if s.KeyNoLog && CanonSnap != nil {
+			h.Write([]byte(CanonSnap(sn)))
+		} else {
+			h.Write([]byte(sn))
+		}
 	}
 	for _, m := range s.Mach {
 		h.Write([]byte(seqKey(m)))
@@ -455,6 +476,42 @@ func (s *State) Key() string {
 	h.Write([]byte(s.Extra))
 	s.key = hex.EncodeToString(h.Sum(nil))[:32]
 	return s.key
+}
+
+// CanonSnap maps an interned snapshot hash to the hash of its order-independent form (set by
+// the Ctx in use; see Ctx.EnableCanon).
+var CanonSnap func(h string) string
+
+var boardIDRe = regexp.MustCompile(`"id":"[^"]*","dkg_round_id":"([^"]*)","offset":\d+`)
+
+// EnableCanon installs the canonicaliser used with KeyNoLog: the tombstone list stores the
+// submitted operations including their result messages AFTER the board assigned ids and
+// offsets to them (Send writes them back); the node never reads those, and they are the only
+// place where the arrival order leaks into a node's store.
+func (c *Ctx) EnableCanon() {
+	cache := map[string]string{}
+	var mu sync.Mutex
+	CanonSnap = func(h string) string {
+		mu.Lock()
+		if v, ok := cache[h]; ok {
+			mu.Unlock()
+			return v
+		}
+		mu.Unlock()
+		sn := c.Snapshot(h)
+		cp := world.Snapshot{}
+		for k, v := range sn {
+			if k == world.DelOpsKey {
+				v = boardIDRe.ReplaceAllString(v, `"id":"","dkg_round_id":"$1","offset":0`)
+			}
+			cp[k] = v
+		}
+		out := cp.Hash()
+		mu.Lock()
+		cache[h] = out
+		mu.Unlock()
+		return out
+	}
 }
 
 // ---------------------------------------------------------------------------------------------
